@@ -1,10 +1,11 @@
 (* Extraction of the consensus models (C13 header/uncle/difficulty/batch, C14 seal)
    for ocaml/consensus/driver.ml.  ExtrOcamlBasic only. *)
 From AQ Require Import Lib.Bytes Lib.ExtractBase Lib.Keccak Generated.GenParamsConsensus
-  Consensus.HeaderModel Consensus.Seal Consensus.ChainModel.
+  Consensus.HeaderModel Consensus.Seal Consensus.ChainModel Consensus.BlockModel Consensus.SealerModel Consensus.DifficultyExtraModel Consensus.AbortModel.
 Require Extraction.
 Require Import ExtrOcamlBasic.
 Extraction "../ocaml/consensus/model.ml" base_anchor keccak256
   block_version is_hf calc_difficulty engine_calc_difficulty verify_header verify_header_top
   verify_worker batch_results sequential first_failure verify_uncles verify_uncles_v pick_seals validate_with_seals validate_header_chain
+  new_block block_op block_run block_rlp seal_threads calc_testnet3 abatch_results
   hash_no_nonce header_hash verify_seal mine rlp_no_nonce rlp_full.
